@@ -22,3 +22,5 @@ pub use crate::{
     string_slice::StringSlice,
 };
 pub use koto_lexer::{Position, RawStringDelimiter, Span, StringQuote, StringType};
+#[cfg(koto_verif)]
+pub use crate::parser::verif;
